@@ -56,6 +56,8 @@ type params struct {
 	QoS           message.QoS
 	Unrel         bool
 	Predecl       bool // D2 pre-registered with WithDownstreamDataIDs
+	PredeclDup    bool // ... and listed twice there (with D1 in between)
+	FlushZero     bool // WithDownstreamAckFlushInterval(0)
 	F             int  // link failures (C04 thorough)
 	P             int
 	DupFilter     bool // the downstream has two filters for source node 1
@@ -80,6 +82,12 @@ func (p params) name() string {
 	}
 	if p.DupFilter {
 		return fmt.Sprintf("dupfilter-%s/P%d", strings.Join(p.Seq, ""), p.P)
+	}
+	if p.PredeclDup {
+		return fmt.Sprintf("predecl-twice-%s/P%d", strings.Join(p.Seq, ""), p.P)
+	}
+	if p.FlushZero {
+		return fmt.Sprintf("ackflush0-%s/P%d", strings.Join(p.Seq, ""), p.P)
 	}
 	return fmt.Sprintf("%s/q%d/u%v/pre%v/F%d/P%d", strings.Join(p.Seq, ""), p.QoS, p.Unrel, p.Predecl, p.F, p.P)
 }
@@ -137,6 +145,10 @@ func scenarios(tier string) []vlib.Scenario {
 	// two filters for one source node: its metadata still arrives once and in order
 	add(params{Seq: []string{"M1", "M1", "M2"}, QoS: message.QoSReliable, DupFilter: true})
 	add(params{Seq: []string{"M1", "M1"}, QoS: message.QoSReliable, DupFilter: true, P: 1})
+	// a data id listed twice among the pre-registered ones; an ack flush interval of 0
+	add(params{Seq: []string{"a", "e"}, QoS: message.QoSReliable, Predecl: true, PredeclDup: true})
+	add(params{Seq: []string{"e", "c"}, QoS: message.QoSReliable, Predecl: true, PredeclDup: true})
+	add(params{Seq: []string{"a", "c"}, QoS: message.QoSReliable, FlushZero: true})
 	// Close while the resume request is unanswered: nothing may follow the close request
 	add(params{Seq: []string{"a"}, QoS: message.QoSReliable, CloseInResume: true})
 	// a read that overlaps Close: what it returns is acknowledged, or it fails
@@ -369,9 +381,16 @@ func (w *world) main() {
 	sctx, scancel := kit.Ctx(10 * time.Second)
 	defer scancel()
 	opts := []iscp.DownstreamOption{iscp.WithDownstreamQoS(w.p.QoS), iscp.WithDownstreamAckFlushInterval(100 * time.Millisecond)}
+	if w.p.FlushZero {
+		opts = append(opts, iscp.WithDownstreamAckFlushInterval(0))
+	}
 	if w.p.Predecl {
 		d2 := dataID(2)
 		opts = append(opts, iscp.WithDownstreamDataIDs([]*message.DataID{&d2}))
+	}
+	if w.p.PredeclDup {
+		d1, d2, d2b := dataID(1), dataID(2), dataID(2)
+		opts = append(opts, iscp.WithDownstreamDataIDs([]*message.DataID{&d2, &d1, &d2b}))
 	}
 	filters := []*message.DownstreamFilter{kit.Filter("src1")[0], kit.Filter("src2")[0]}
 	if w.p.DupFilter {
